@@ -427,6 +427,33 @@ fn outcome_consumers(words: &[u32]) -> Result<(Vec<String>, String), Fail> {
     Ok((v, end))
 }
 
+/// histories with function and block delimiters scattered through them: consumers sit in later
+/// functions, types and typed values are declared at module scope or inside earlier function
+/// bodies (the statement knows no scopes: only what precedes in the binary counts)
+fn sub_structured(input: &[u8], st: &mut Stats) -> R {
+    let mut cs = Cs::new(input);
+    let mut h = gen_history(&mut cs);
+    let tys: Vec<u32> = h.items.iter().filter_map(|i| match i {
+        Item::TypeInt { id, .. } | Item::TypeFloat { id, .. } => Some(*id),
+        _ => None,
+    }).collect();
+    let n = 1 + cs.below(6);
+    for k in 0..n {
+        let ty = if !tys.is_empty() && cs.bool() { tys[cs.below(tys.len())] } else { 2900 + cs.below(4) as u32 };
+        let it = match cs.below(7) {
+            0 | 1 => Item::Value { op: 54, ty, id: 5000 + k as u32, extra: vec![0, 2999] }, // OpFunction
+            2 | 3 => Item::Other(vec![0x0001_0038]),                                        // OpFunctionEnd
+            4 => Item::Other(vec![0x0002_00f8, 5100 + k as u32]),                           // OpLabel
+            5 => Item::Other(vec![0x0001_00fd]),                                            // OpReturn
+            _ => Item::Value { op: 55, ty, id: 5200 + k as u32, extra: vec![] },            // OpFunctionParameter
+        };
+        let at = cs.below(h.items.len() + 1);
+        h.items.insert(at, it);
+    }
+    st.count("structured_histories");
+    check_history(&h, st)
+}
+
 /// the decision depends only on the current parse: B after A == B alone; A twice equal
 fn sub_independence(input: &[u8], st: &mut Stats) -> R {
     let mut cs = Cs::new(input);
@@ -497,6 +524,7 @@ pub const SUBS: &[Sub] = &[
     Sub { name: "independence", f: sub_independence },
     Sub { name: "edge-ids", f: sub_edge_ids },
     Sub { name: "redeclared-ids", f: sub_redeclared },
+    Sub { name: "structured-histories", f: sub_structured },
 ];
 
 pub fn run(ctx: &Ctx) {
@@ -506,13 +534,14 @@ pub fn run(ctx: &Ctx) {
     drive_random(ctx, &SUBS[2], ctx.n(1_000, 150_000), 1200);
     drive_random(ctx, &SUBS[3], ctx.n(20_000, 10_000_000), 600);
     drive_random(ctx, &SUBS[4], ctx.n(20_000, 10_000_000), 600);
+    drive_random(ctx, &SUBS[5], ctx.n(20_000, 10_000_000), 640);
 }
 
 pub fn finish(ctx: &Ctx) -> i32 {
     crate::engine::finish(
         ctx,
         Finish {
-            rule: "cases: (a) complete grid: {int,float} x widths {8,16,32,64,1,24,48,128,0} x signedness x consumer {OpConstant, OpSpecConstant, OpSwitch with 2 cases} x {1,2} literal words x propagation depth 0-2 x distance 0-2; (b) random histories of 2-15 instructions interleaving OpTypeInt/OpTypeFloat (supported and unsupported widths), typed values (OpUndef/OpVariable/OpLoad/OpIAdd chains), consumers placed before/after their declarations, each encoded with 1 or 2 literal words, and unrelated instructions; ids defined once; (b') the same histories under a bijective id renaming that sends 1-3 defined ids to 0 / 0x7fffffff / 0x80000000 / 0xffffffff; (b'') histories in which type ids are declared more than once: the parser must follow one consistent reading for the whole binary (latest preceding declaration, or first), and inserting an unrelated OpUndef anywhere must not change what any consumer delivers; (c) pairs (A, B): B after A in the same thread vs B alone in a fresh thread, A twice. Oracle: model R3 (inside reference parser R1): words consumed / TypeUnsupported / accept-or-reject of each consumer, delivered variant LiteralBit32 vs LiteralBit64 with value = low | high<<32, assemble emits the input's word count, outcomes independent of earlier parses. non-trivial = consumer whose type was declared >= 2 instructions earlier or reaches it through >= 1 propagation step (independence: every pair); distinct = hash of the words.",
+            rule: "cases: (a) complete grid: {int,float} x widths {8,16,32,64,1,24,48,128,0} x signedness x consumer {OpConstant, OpSpecConstant, OpSwitch with 2 cases} x {1,2} literal words x propagation depth 0-2 x distance 0-2; (b) random histories of 2-15 instructions interleaving OpTypeInt/OpTypeFloat (supported and unsupported widths), typed values (OpUndef/OpVariable/OpLoad/OpIAdd chains), consumers placed before/after their declarations, each encoded with 1 or 2 literal words, and unrelated instructions; ids defined once; (b') the same histories under a bijective id renaming that sends 1-3 defined ids to 0 / 0x7fffffff / 0x80000000 / 0xffffffff; (b'') histories in which type ids are declared more than once: the parser must follow one consistent reading for the whole binary (latest preceding declaration, or first), and inserting an unrelated OpUndef anywhere must not change what any consumer delivers; (b''') histories with OpFunction / OpFunctionParameter / OpLabel / OpReturn / OpFunctionEnd scattered through them (consumers in later functions, declarations at module scope or in earlier function bodies); (c) pairs (A, B): B after A in the same thread vs B alone in a fresh thread, A twice. Oracle: model R3 (inside reference parser R1): words consumed / TypeUnsupported / accept-or-reject of each consumer, delivered variant LiteralBit32 vs LiteralBit64 with value = low | high<<32, assemble emits the input's word count, outcomes independent of earlier parses. non-trivial = consumer whose type was declared >= 2 instructions earlier or reaches it through >= 1 propagation step (independence: every pair); distinct = hash of the words.",
             assumptions: vec!["ids are defined once except in `redeclared-ids`, where the statement leaves open which declaration decides and both consistent readings are accepted".into()],
             trusted_base: vec!["width model R3".into(), "reference parser R1".into()],
         },
